@@ -125,7 +125,7 @@ Proof. vm_compute; reflexivity. Qed.
    acceptEvent / acceptPublishTopic / acceptQuery and the upsert arm of topic.go *)
 Definition sample : entity :=
   mkE (bs "foo.v1") (bs "Foo") [] [mkK (mkU (bs "fooId") (KKey true None None) false false) false] []
-      [bs "ACTIVE"] [mkEv (bs "Create") []] [] [mkS [] []] (Some (mkQ true [])) [].
+      [bs "ACTIVE"] [mkEv (bs "Create") []] [] [mkS [] []] (Some (mkQ true [] false)) [].
 Definition externals (cs : list component) : list (bytes * bytes) :=
   flat_map (fun f => match f_type f with
                      | TObject (c :: p) n => [(c :: p, n)]
@@ -149,7 +149,7 @@ Definition probe : entity :=
   mkE (bs "foo.v1") (bs "Foo") [] [mkK (mkU (bs "fooId") (KKey true None None) false false) false] []
       [bs "ACTIVE"] [mkEv (bs "Create") []]
       [mkC None None [mkM (bs "DoIt") 2 (bs "x") [] (Some [])]]
-      [mkS [] []] (Some (mkQ true [])) [].
+      [mkS [] []] (Some (mkQ true [] false)) [].
 Definition probe_cs : list component := expand_with probe [].
 
 Fixpoint drop_prefix (p s : bytes) : option bytes :=
